@@ -651,6 +651,17 @@ func cstCmd(args []string) error {
 			wk.stop()
 			wk = nil
 		}
+		// the worker's own direct oracles (tiling, located errors, formatting keeps meaning / is idempotent / keeps comments) on this text
+		if ok {
+			if parts := strings.SplitN(resp, "\t", 3); len(parts) == 3 && parts[1] != "" {
+				for _, e := range strings.Split(parts[1], "\x1e") {
+					if pd := strings.SplitN(e, "\x1f", 2); len(pd) == 2 {
+						st.OracleFail[pd[0]]++
+						fmt.Fprintf(bo, "%s %s %s\n", pd[0], hx(text), pd[1])
+					}
+				}
+			}
+		}
 		fmt.Fprintln(bc, f.enc())
 		fmt.Fprintf(bi, "%s ## %s ## %s\n", hx(text), got, want)
 		st.Cases++
